@@ -46,7 +46,7 @@ CHECKS = {
  "C14": dict(
    technique="reference-model runtime monitor on mutation-heavy generated programs whose main returns all live variables, so any unintended change of any variable is observable",
    text="Exploration: copies followed by mutation, (compound) assignment through nested index/field accessors with constant and input-dependent indices, inside blocks, branches, arms, loops and callees with mut parameters, shadowing; 4 configurations.",
-   note="Same trusted base as C01. Generator mask in force for known finding KF-C14-2 (compound assignments copy the place).",
+   note="Same trusted base as C01.",
    design="DESIGN.md section 2 / C14"),
  "C03": dict(
    technique="reference-model runtime monitor: every compiled operator program is executed on enumerated/boundary/random operands and each execution is judged against i128 checked arithmetic",
